@@ -18,6 +18,8 @@ pub enum FsInfoKind {
     HintOut,
     HintUsed,
     HintLast,
+    /// the hint names the (in-use) cluster right after the highest free one: nothing is free from the hint upwards
+    HintAfterLastFree,
 }
 
 #[derive(Serialize, Deserialize, Clone, Debug, PartialEq)]
@@ -810,6 +812,10 @@ pub fn format_volume(img: &mut Image, v: &VolSpec) -> VolOut {
             FsInfoKind::HintOut => (free_now, n + 1000),
             FsInfoKind::HintUsed => (free_now, used_cluster),
             FsInfoKind::HintLast => (free_now, n - 1),
+            FsInfoKind::HintAfterLastFree => {
+                let last_free = (2..n).rev().find(|&c| bld.al.is_free(c));
+                (free_now, last_free.map_or(used_cluster, |c| (c + 1).min(n - 1)))
+            }
         };
         f[488..492].copy_from_slice(&count.to_le_bytes());
         f[492..496].copy_from_slice(&hint.to_le_bytes());
@@ -1003,11 +1009,14 @@ pub fn gen_volspec(rng: &mut Rng, bias: Bias, lba: u32, slot: u8) -> VolSpec {
             (Bias::Info, 4) => FsInfoKind::HintOut,
             (Bias::Info, 5) => FsInfoKind::HintUsed,
             (Bias::Info, 6) => FsInfoKind::HintLast,
+            (Bias::Info, 7) | (Bias::Space, 7) => FsInfoKind::HintAfterLastFree,
             (_, 9) => FsInfoKind::Unknown,
             (_, 8) => FsInfoKind::HintUsed,
             _ => FsInfoKind::Correct,
         }
     };
+    // a hint right behind the highest free cluster only matters when little is free
+    let free = if fsinfo == FsInfoKind::HintAfterLastFree { Some(*rng.pick(&[1u32, 1, 2, 3, 8])) } else { free };
     let max_cluster_id = clusters + 1;
     let root_cluster = if fat32 {
         match rng.below(4) {
